@@ -32,6 +32,66 @@ theorem wakeNextL_sum (n : Nat) (ws : List Waiter) (hn : 0 < n) (c : Cap) (ws' :
       simp only [grantsL, List.countP_cons] at h2 ⊢
       omega
 
+/-- `_wake_up_next` with a free slot: afterwards either some waiter holds a granted slot or nobody is pending -/
+theorem wakeNextL_wake (c0 : Cap) (ws : List Waiter) (c : Cap) (ws' : List Waiter) (o : Option Nat)
+    (h : wakeNextL c0 ws = (c, ws', o)) (hg : grantsL ws' = 0) : ∀ w ∈ ws', w.st ≠ .pending := by
+  induction ws generalizing c ws' o with
+  | nil =>
+    simp [wakeNextL] at h
+    obtain ⟨_, rfl, _⟩ := h
+    intro w hw; cases hw
+  | cons w0 ws ih =>
+    unfold wakeNextL at h
+    split at h
+    · simp at h
+      obtain ⟨_, rfl, _⟩ := h
+      simp [grantsL, List.countP_cons] at hg
+    · rename_i hp
+      generalize hr : wakeNextL c0 ws = r at h
+      obtain ⟨c1, w1, o1⟩ := r
+      simp at h
+      obtain ⟨_, rfl, _⟩ := h
+      have hg' : grantsL w1 = 0 := by
+        simp only [grantsL, List.countP_cons] at hg ⊢; omega
+      intro w hw
+      rcases List.mem_cons.mp hw with rfl | hw'
+      · exact hp
+      · exact ih c1 w1 o1 hr hg' w hw'
+
+theorem Sem.release_wake (s : Sem) (hg : grantsL s.release.1.waiters = 0) : ∀ w ∈ s.release.1.waiters, w.st ≠ .pending := by
+  unfold Sem.release Sem.wakeNext at hg ⊢
+  simp only at hg ⊢
+  generalize hr : wakeNextL s.value.inc s.waiters = r at hg ⊢
+  obtain ⟨c, ws', o⟩ := r
+  exact wakeNextL_wake _ _ c ws' o hr hg
+
+theorem Sem.wakeNext_wake (s : Sem) (hg : grantsL s.wakeNext.1.waiters = 0) : ∀ w ∈ s.wakeNext.1.waiters, w.st ≠ .pending := by
+  unfold Sem.wakeNext at hg ⊢
+  simp only at hg ⊢
+  generalize hr : wakeNextL s.value s.waiters = r at hg ⊢
+  obtain ⟨c, ws', o⟩ := r
+  exact wakeNextL_wake _ _ c ws' o hr hg
+
+@[simp] theorem schedOpt_resized (p : Pool) (o) : (p.schedOpt o).resized = p.resized := by cases o <;> rfl
+
+theorem releasePool_resized (p : Pool) : p.releasePool.resized = p.resized := by
+  unfold releasePool; simp
+
+/-- a release re-establishes the no-lost-wake-up invariant outright -/
+theorem wakeOK_releasePool (p : Pool) : WakeOK p.releasePool := by
+  intro _ v _ _ hg
+  have hs : p.releasePool.sem = p.sem.release.1 := by unfold releasePool; simp
+  rw [hs] at hg ⊢
+  exact Sem.release_wake p.sem hg
+
+theorem moveToEnded_resized (p p1 : Pool) (t : Nat) (h : p.moveToEnded t = some p1) : p1.resized = p.resized := by
+  unfold moveToEnded at h
+  split at h
+  · simp at h; subst h; rfl
+  · split at h
+    · simp at h; subst h; rfl
+    · simp at h
+
 theorem wakeNextL_inf (ws : List Waiter) : (wakeNextL .inf ws).1 = .inf := by
   induction ws with
   | nil => rfl
